@@ -37,17 +37,19 @@ Proof. destruct o; reflexivity. Qed.
 Lemma filed_expired tbl k l o t : filed_ok tbl -> In (k, l) tbl -> In o l -> expired t o = (k <? t).
 Proof. intros F Hi Ho. destruct (F k l o Hi Ho) as [d [Ed Ek]]. unfold expired. rewrite Ed, Ek. reflexivity. Qed.
 
-(* setting the book's clock to ANY time: the records reported are exactly the filed orders whose accept time plus time to live is
+(* (the keys of a Python dict are distinct: NoDup (map fst tbl))
+   setting the book's clock to ANY time: the records reported are exactly the filed orders whose accept time plus time to live is
    strictly before it, each reported as it is and at the new time; they are removed from the queue; and nothing that stays filed is past
    its time to live *)
-Theorem gen_set_time_expires_exactly_the_overdue : forall tbl queue t, filed_ok tbl ->
+Theorem gen_set_time_expires_exactly_the_overdue : forall tbl queue t, NoDup (map fst tbl) -> filed_ok tbl ->
   let '(logs, queue', tbl') := set_time_gen tbl queue t in
   (forall r, In r logs -> exists k l o, r = RExpire o t /\ In (k, l) tbl /\ In o l /\ expired t o = true) /\
   (forall k l o, In (k, l) tbl -> In o l -> expired t o = true -> In (RExpire o t) logs) /\
   (forall k l o, In (k, l) tbl' -> In o l -> In (k, l) tbl /\ expired t o = false) /\
   queue' = fold_left (fun q o => remove_id (oid o) q) (concat (map snd (filter (fun kv => fst kv <? t) tbl))) queue.
 Proof.
-  intros tbl queue t F. unfold set_time_gen, check_expired_gen, due_orders_gen, due_keys_gen.
+  intros tbl queue t ND F. unfold set_time_gen, check_expired_gen, due_orders_gen, due_keys_gen.
+  rewrite ?(concat_via_keys tbl (fun kv => fst kv <? t) ND).
   set (due := concat (map snd (filter (fun kv => fst kv <? t) tbl))).
   assert (Hdue : forall o, In o due <-> exists k l, In (k, l) tbl /\ (k <? t) = true /\ In o l).
   { intros o. unfold due. rewrite (in_due (fun kv => fst kv <? t)). reflexivity. }
@@ -83,8 +85,8 @@ Example gen_set_time_example :
   let o2 := mkO 1 7 0 true (Some (99#1)) 3 1 (Some 3) in
   let o3 := mkO 2 7 0 true (Some (98#1)) 3 1 (Some 8) in
   let tbl := [(2, [o1]); (4, [o2]); (9, [o3])] in
-  filed_ok tbl /\ set_time_gen tbl [o1; o2; o3] 6 = ([RExpire o1 6; RExpire o2 6], [o3], [(9, [o3])]).
+  NoDup (map fst tbl) /\ filed_ok tbl /\ set_time_gen tbl [o1; o2; o3] 6 = ([RExpire o1 6; RExpire o2 6], [o3], [(9, [o3])]).
 Proof.
-  split; [|vm_compute; reflexivity].
+  split; [cbn; repeat constructor; cbn; intuition lia|]. split; [|vm_compute; reflexivity].
   intros k l o Hi Ho. cbn in Hi. destruct Hi as [E|[E|[E|[]]]]; inversion E; subst; cbn in Ho; destruct Ho as [<-|[]]; cbn; eexists; split; reflexivity.
 Qed.
